@@ -28,6 +28,7 @@ type Program struct {
 	MapOrderPerm  bool
 	TimerRace     bool
 	Segmentation  bool
+	SegCuts       int // with Segmentation: at most this many short reads per connection (0 = unlimited)
 	StubPkgs      map[string]bool
 	Params        map[string]int
 	RepoPrefix    string
@@ -283,7 +284,7 @@ func (p *Program) Explore(entries []*ssa.Function, opt Options) *Report {
 					hr.Reached[k] = true
 				}
 				for _, v := range m.viol {
-					key := j.harness + "|" + v.Kind + "|" + v.Site + "|" + v.Pos
+					key := j.harness + "|" + v.Kind + "|" + v.Site + "|" + v.Pos + "|" + v.Msg
 					if !seenSites[key] {
 						seenSites[key] = true
 						hr.Violations = append(hr.Violations, v)
@@ -421,6 +422,7 @@ func (m *Machine) resetPath() {
 	m.uf = nil
 	m.crypto = nil
 	m.divMemo = nil
+	m.fmtOpaque = 0
 	m.aborting = false
 	g0 := &G{id: 0, started: true, resume: make(chan struct{})}
 	m.gs = []*G{g0}
